@@ -92,8 +92,12 @@ def r1(ctx, R):
     R.need(len(miss) >= 2, "eval_node: expected calls of _eval_formula and _start_exec")
     t_has = [n for n in cfg.nodes if n.kind == "test" and q.mentions_call(n.ast, "has_node")]
     t_cached = [n for n in cfg.nodes if n.kind == "test" and norm(n.ast).endswith(".is_cached")]
-    R.need(len(t_has) == 1, "eval_node: expected one has_node test, found %d" % len(t_has))
-    R.need(len(t_cached) == 1, "eval_node: expected one is_cached test, found %d" % len(t_cached))
+    R.inst("eval_node: the held-value decision is a membership test (has_node) on a cached cells")
+    if len(t_has) != 1 or len(t_cached) != 1:
+        R.bad(en, en.node, "eval_node does not decide hit/miss by `is_cached and has_node(key)`: a held value that is "
+                           "falsy/None is taken for a miss and recomputed (or a miss is served from elsewhere)",
+              stmt="hit test")
+        return
     th, tc = t_has[0], t_cached[0]
     hcall = [c for c in ast.walk(th.ast) if isinstance(c, ast.Call) and call_name(c) == "has_node"][0]
     obj = call_recv(hcall)
